@@ -22,6 +22,9 @@ CHECKS = {
  "C13": dict(cat="fault_enumeration", tech="replay-equivalence monitor against state files saved at every height; strace-injected SIGKILL at every file syscall of a save; syscall-order monitor (write temp, fsync, rename)",
    text="(a) apps loaded from the state file of height s replay the remaining blocks and must answer every CheckTx/DeliverTx/EndBlock and hold the same canonical state as the uninterrupted app; (b) a child process is killed by strace at entry of every openat/write/fsync/renameat/close of a save, after which the file must load as the previous (or, after the rename, the new) state; (c) the uninjected syscall trace must follow write-temp / fsync / rename; (d) temp-file prefixes never affect loading.",
    note=TB_APP + "; strace as injector/observer; process death as the crash model (power loss only via the syscall-order monitor)", ref="§3 C13"),
+ "C14": dict(cat="exploration", tech="round-trip oracle + lenient reference decoder compared call-by-call with the repository decoder on mutated event data; events harvested from the real app's responses",
+   text="Values of all 8 event types over boundary inputs are encoded with MakeABCIEvent and decoded with MakeEvent and must come back identical; every event the real app emits in generated histories must decode to what the transaction carried; mutated attribute lists/strings are judged by an independent lenient decoder (repository accepts => reference defined and equal; reference undefined => repository errors; never a panic).",
+   note="Go toolchain; refimpl.EventDecode (lenient reference, ~150 lines); blst for curve-point validity; smchain for app-emitted events", ref="§3 C14"),
 }
 
 NOT_APPLICABLE = {
